@@ -24,8 +24,11 @@ CORE = STRUCT + ["ConsumeInv", "GetInv", "ScanInv", "DeleteInv"]
 
 # core family: C01 C02 C03 C04 C12
 cfg("seg_core_q", CORE, ["NextMonotone"], Versions="{1, 2}", OptKeep="TF", AllowRO="TRUE")
-cfg("seg_core_t", CORE, ["NextMonotone"], MaxOff=6, MaxSets=3, Versions="{1, 2}", OptKeep="TF", OptEager="TF",
-    OptCheck="TF", OptRecover="TF", AllowRO="TRUE", AllowRmIndex="TRUE", AllowMigrate="TRUE", Rollovers="{5, 50, 1000}")
+# thorough: one deep configuration for the structure (bigger logs, bigger delete sets) ...
+cfg("seg_core_t", CORE, ["NextMonotone"], MaxOff=10, MaxSets=3, MaxBatch=3, Versions="{2}", AllowRO="TRUE", Rollovers="{5, 50, 100, 1000}")
+# ... and one wide configuration for the options (every Open option combination, index removal, migration, versions)
+cfg("seg_opts_t", CORE, ["NextMonotone"], MaxOff=5, MaxSets=2, Versions="{1, 2}", OptKeep="TF", OptEager="TF",
+    OptCheck="TF", OptRecover="TF", AllowRO="TRUE", AllowRmIndex="TRUE", AllowMigrate="TRUE", Rollovers="{50, 1000}")
 cfg("gen_core_q", ["Emit"], MaxOff=5)
 cfg("gen_core_t", ["Emit"], MaxOff=6, MaxSets=3, Versions="{1, 2}", OptKeep="TF", AllowRmIndex="TRUE")
 # keys: C09
